@@ -23,7 +23,7 @@ ASSUMPTIONS = [
     "the 12-row month table written in this file is the intended table (English names, 3-letter lower-case abbreviations)",
     "bool, int/str subclasses, non-ASCII decimal digits and non-decimal digit characters are used for the no-raise claim only",
 ]
-MIN = {"table": (1800, 1800), "compose": (1800 * 9, 1800 * 9), "nonmonth_unchanged": (30, 30), "no_raise": (2000, 100000)}
+MIN = {"table": (3600, 3600), "compose": (3600 * 9, 3600 * 9), "nonmonth_unchanged": (30, 30), "no_raise": (2000, 100000)}
 
 ABBR = ["jan", "feb", "mar", "apr", "may", "jun", "jul", "aug", "sep", "oct", "nov", "dec"]
 FULL = ["January", "February", "March", "April", "May", "June", "July", "August", "September",
@@ -187,21 +187,30 @@ def _mws():
     return _MW
 
 
-def apply(names, value, inplace, with_month=True):
-    """Run the real middlewares on a one-entry library; returns (status, value-or-exception)."""
+def apply(names, value, inplace, with_month=True, context=False):
+    """Run the real middlewares on a library holding the entry (optionally among other blocks: @string
+    macros named like the month spelling, another entry, comments); returns (status, value-or-exception)."""
     from bibtexparser.library import Library
-    from bibtexparser.model import Entry, Field
+    from bibtexparser.model import Entry, ExplicitComment, Field, Preamble, String
     fields = [Field("title", "{T}")]
     if with_month:
         fields.append(Field("month", value))
     fields.append(Field("year", "2020"))
-    lib = Library([Entry("article", "k", fields)])
+    blocks = [Entry("article", "k", fields)]
+    if context:
+        blocks = [String("jan", '"Janvier"'), String("December", "{Dezember}"), Preamble("p"), ExplicitComment("month = jan")] + blocks + \
+                 [Entry("book", "other", [Field("month", "{jan}"), Field("note", "month")])]
+        if type(value) is str and value not in ("jan", "December") and value.strip():
+            blocks.insert(0, String(value, "{macro named like the month value}"))
+    lib = Library(blocks)
     try:
         for nm in names:
             lib = _mws()[(nm, inplace)].transform(lib)
-        if len(lib.entries) != 1:
+        if len(lib.entries) != (2 if context else 1):
             return "lost", f"entries={len(lib.entries)} blocks={[type(b).__name__ for b in lib.blocks]}"
-        e = lib.entries[0]
+        e = lib.entries_dict["k"]
+        if context and lib.entries_dict["other"]["month"] != "{jan}":
+            return "lost", "enclosed month of a neighbouring entry changed"
         if not with_month:
             return "ok", [(f.key, f.value) for f in e.fields]
         others = [(f.key, f.value) for f in e.fields if f.key != "month"]
@@ -267,15 +276,15 @@ def check(case, ctx):
     ctx.state(f"{k}:{cls}")
     stacks = [(a,) for a in NAMES] + [(a, b) for a in NAMES for b in NAMES]
     single = {}
-    for inplace in (False, True):
+    for inplace, context in ((False, False), (True, False), (False, True), (True, True)):
         for names in stacks:
-            st, res = apply(names, v, inplace)
+            st, res = apply(names, v, inplace, context=context)
             ctx.ran()
             ctx.mon("no_raise")
             tag = "+".join(names)
             if st == "raise":
                 out.append(Violation("middleware-raised", f"C15:raise:{names[-1]}:{cls}:{res.split(':')[0]}",
-                                     dict(stack=tag, inplace=inplace, value=repr(v)[:80], error=res)))
+                                     dict(stack=tag, inplace=inplace, context=context, value=repr(v)[:80], error=res)))
                 continue
             if st == "lost":
                 out.append(Violation("entry-lost", f"C15:lost:{tag}:{cls}", res))
@@ -284,14 +293,14 @@ def check(case, ctx):
                 m = case["m"]
                 if len(names) == 1:
                     ctx.mon("table")
-                    single[(names[0], inplace)] = res
+                    single[(names[0], inplace, context)] = res
                     if not same(res, expected(names[0], m)):
                         out.append(Violation("wrong-month-value", f"C15:table:{names[0]}:{cls}",
                                              dict(mw=tag, value=repr(v), got=srepr(res), want=repr(expected(names[0], m)))))
                 else:
                     ctx.mon("compose")
                     # B(A(s)) must equal B(s) (observed above) - and hence the table value
-                    alone = single.get((names[1], inplace))
+                    alone = single.get((names[1], inplace, context))
                     if not same(res, alone) or not same(res, expected(names[1], m)):
                         out.append(Violation("composition-differs", f"C15:compose:{tag}:{cls}",
                                              dict(stack=tag, value=repr(v), got=srepr(res), alone=srepr(alone))))
